@@ -656,6 +656,10 @@ const _: () = {
     }
 };
 
+#[cfg(ohkami_verif)]
+#[cfg(feature="__rt_native__")]
+pub(crate) mod __verif_sync { pub use super::sync::{CtrlC, WaitGroup}; }
+
 #[cfg(feature="__rt_native__")]
 mod sync {
     pub struct WaitGroup(std::ptr::NonNull<
